@@ -76,7 +76,7 @@ def run_case(ctx, kind_, idx):
     cid = ctx.case_id(kind_, idx)
     long_source = kind_ == "huge" and (idx // 4) % 3 == 2
     x, y, meta = R.gen_series(rng, 4, 60, ties_share=0.2, long_share=0.0 if kind_ == "huge" else R.LONG_SHARE,
-                              force_m=int(rng.integers(66000, 90001)) if long_source else None)
+                              force_m=gen.huge_size(rng) if long_source else None)
     if long_source:
         y = y + 1e-3 * np.arange(len(y))        # no two samples alike
     method = METHODS[int(rng.integers(0, 4))]
@@ -168,7 +168,7 @@ def run_case(ctx, kind_, idx):
                 if long_source:
                     # a day of per-second samples looked up at a few hundred points, some of them inside the gaps in
                     # front of round sample numbers
-                    ks = np.array([2 ** 16, 2 ** 16 + 1, 2 ** 15, 50000, 60000, 2 ** 16 - 1])
+                    ks = np.array([k_ for k_ in (2 ** 16, 2 ** 16 + 1, 2 ** 15, 50000, 60000, 2 ** 16 - 1, 2 ** 15 + 1, 40000) if k_ < len(x) - 1])
                     fr = rng.choice([0.5, 0.25, 0.999, 0.0], len(ks))
                     at_edges = x[ks - 1] + fr * (x[ks] - x[ks - 1])
                     new_x = np.sort(np.concatenate([at_edges, rng.uniform(float(x[0]), float(x[-1]), int(rng.integers(100, 400)))]))
